@@ -9,7 +9,7 @@ import json, os, random, subprocess, sys, time, multiprocessing
 ENV = dict(os.environ, GOFLAGS="-mod=mod", GOPROXY="off", GOSUMDB="off")
 GO126 = "/opt/veriftools/go1.26.8/bin/go"
 FILES = {
- "v2/smf/reader.go": ["C01","C02","C05","C09","C10"],
+ "v2/smf/reader.go": ["C01","C02","C05","C09","C10","C12"],
  "v2/smf/writer.go": ["C01","C03","C10"],
  "v2/smf/chunk.go": ["C01","C03","C10","C09"],
  "v2/smf/smf.go": ["C01","C03","C10","C12","C13"],
